@@ -18,7 +18,7 @@ RULE = (
     "own probability lies outside its integration range; non-trivial = skewed or shifted sample; distinct = distinct (sample, estimator)"
 )
 ASSUMPTIONS = [
-    "reference integrals: composite Simpson on 40001 nodes over the sample range +- 12 standard deviations (density is smooth on the scale of the bandwidth)",
+    "reference integrals: trapezoidal rule on 40001 uniform nodes over the sample range +- 12 standard deviations plus log-spaced nodes out to 1e7 standard deviations",
     "moment tolerances include twice the contribution of the estimator's own density beyond its integration range (that truncation is documented behaviour)",
     "UnimodalPdf re-fits under shift/scale are compared at optimiser accuracy",
 ]
@@ -49,18 +49,27 @@ def gen(rng, kind, n):
 
 
 class Profile:
-    """Dense tabulation of an estimator's own density, and integrals of it."""
+    """Dense tabulation of an estimator's own density, and integrals of it.
+
+    Grid: 40001 uniform nodes over the sample range +- 12 standard deviations, continued on
+    both sides by log-spaced nodes out to 1e7 standard deviations (a fitted model may have a
+    long shoulder or a power-law tail).  Integrals use the trapezoidal rule (node spacing is
+    ~1e-3 standard deviations in the core and 0.5% per node in the tails)."""
 
     def __init__(self, E, x):
-        from scipy.integrate import simpson, cumulative_simpson
+        from scipy.integrate import trapezoid, cumulative_trapezoid
 
         sd = float(np.std(x))
         self.sd = sd
-        self.grid = np.linspace(x.min() - 12 * sd, x.max() + 12 * sd, 40001)
+        lo, hi = x.min() - 12 * sd, x.max() + 12 * sd
+        core = np.linspace(lo, hi, 40001)
+        d = 12 * sd * (10.0 ** np.linspace(0, 6, 2801)[1:] - 1.0) + (core[1] - core[0])
+        self.grid = np.concatenate([lo - d[::-1], core, hi + d])
+        self.core = (lo, hi)
         self.p = np.asarray(E(self.grid), float)
-        self.simpson = simpson
-        self.total = float(simpson(self.p, x=self.grid))
-        self.cum = np.concatenate([[0.0], cumulative_simpson(self.p, x=self.grid)])
+        self.trapz = trapezoid
+        self.total = float(trapezoid(self.p, x=self.grid))
+        self.cum = np.concatenate([[0.0], cumulative_trapezoid(self.p, x=self.grid)])
         self.peak = float(self.p.max())
         self.argmax = float(self.grid[np.argmax(self.p)])
 
@@ -68,7 +77,7 @@ class Profile:
         return float(np.interp(b, self.grid, self.cum) - np.interp(a, self.grid, self.cum))
 
     def moments(self, centre):
-        g, p, S = self.grid, self.p, self.simpson
+        g, p, S = self.grid, self.p, self.trapz
         m0 = S(p, x=g)
         mu = centre + S(p * (g - centre), x=g) / m0
         var = S(p * (g - mu) ** 2, x=g) / m0
@@ -78,7 +87,7 @@ class Profile:
 
     def outside(self, lo, hi, mu, sd):
         """Mass and absolute standardised moment contributions of the density outside [lo, hi]."""
-        g, p, S = self.grid, self.p, self.simpson
+        g, p, S = self.grid, self.p, self.trapz
         w = np.where((g < lo) | (g > hi), p, 0.0)
         z = np.abs(g - mu) / sd
         return [float(S(w * z**k, x=g)) for k in range(5)]
@@ -156,22 +165,20 @@ def run_job(job, rec):
                 rec.check(abs(d) <= (4.8e-4 + 2.5e-3 * ref if is_kde else 2e-5 + 1e-5 * ref), "cdf-not-integral-of-pdf",
                           lambda: f"{name}: cdf({pts[j]!r}) - cdf({pts[i]!r}) = {cv[j] - cv[i]!r} but the density integrates to {ref!r} there", ctx)
             rec.check(bool(np.all(np.diff(cv[o]) >= -5e-4)), "cdf-decreasing", "cdf decreases", ctx)
-            # absolute level: cdf(x) is the integral of the density from -infinity, and rises to one
-            far = np.array([P.grid[0], P.grid[-1]])
-            lv = guarded(E.cdf, np.concatenate([pts[o][[0, -1]], far]))
-            if isinstance(lv, Raised):
-                rec.violation("raised", f"{name}.cdf raised {lv!r} far outside the data", ctx)
-                continue
-            lv = np.asarray(lv, float)
+            # absolute level: cdf(x) is the integral of the density from -infinity (no clipped tail).
+            # Each point is evaluated on its own: the property is about the value of the cdf, not about
+            # the quadrature between widely separated evaluation points.
             tol_abs = 3e-3 if is_kde else 3e-4
-            for xx, cc in zip(pts[o][[0, -1]], lv[:2]):
+            for xx in (pts[o][0], pts[o][-1], P.core[0], P.core[1]):
+                cc = guarded(E.cdf, float(xx))
+                if isinstance(cc, Raised):
+                    rec.violation("raised", f"{name}.cdf({xx!r}) raised {cc!r}", ctx)
+                    continue
+                cc = float(cc)
                 ref = P.mass(P.grid[0], xx) / P.total
                 track(name + ":cdf_level", cc - ref)
                 rec.check(abs(cc - ref) <= tol_abs, "cdf-level",
                           lambda: f"{name}: cdf({xx!r}) = {cc!r} but the density integrates to {ref!r} below that point (a tail is clipped?)", ctx)
-            track(name + ":cdf_top", 1 - lv[3])
-            rec.check(lv[2] <= tol_abs and lv[3] >= 1 - tol_abs, "cdf-limits",
-                      lambda: f"{name}: cdf is {lv[2]!r} far below and {lv[3]!r} far above the data", ctx)
 
             # 3. mode: a point of maximal estimated density
             pm = guarded(E, float(E.mode))
